@@ -751,7 +751,6 @@ func shadowedErrors(p *Program, r *Report, scope func(*FuncInfo) bool, tag strin
 	return n
 }
 
-
 // c18r8: a body that could not be decompressed must not be handed on as a frame: in the receive and finish paths no
 // error is hidden by a shadowing `if err := ..` or overwritten before it is examined (=C05.R11/R12 on those paths).
 func c18r8(p *Program, r *Report) {
@@ -768,5 +767,378 @@ func c18r8(p *Program, r *Report) {
 	n += lostErrors(p, r, scope, "frame path")
 	if n == 0 {
 		r.Unresolved("no error handling found in the frame receive / finish path")
+	}
+}
+
+// c01r12: the receiver never blocks on a caller that has left: every send on callReq.resp sits in a select that also
+// has a receive on the same call's timeout channel (closed by the caller when it stops waiting) or a default. If the
+// receiver's hand-over loses that alternative, one departed caller wedges the connection's only reader and no later
+// response reaches its request.
+func c01r12(p *Program, r *Report) {
+	respF := p.Field("callReq", "resp")
+	timeoutF := p.Field("callReq", "timeout")
+	if respF == nil || timeoutF == nil {
+		r.Unresolved("callReq.resp / callReq.timeout not found")
+		return
+	}
+	n := 0
+	p.forEachFunc(false, func(fi *FuncInfo) {
+		if fi.Pkg != p.Root || fi.Decl.Body == nil {
+			return
+		}
+		info := fi.Pkg.TypesInfo
+		ast.Inspect(fi.Decl.Body, func(x ast.Node) bool {
+			snd, ok := x.(*ast.SendStmt)
+			if !ok || fieldOf(info, snd.Chan) != respF {
+				return true
+			}
+			n++
+			root := ""
+			if sel, isSel := ast.Unparen(snd.Chan).(*ast.SelectorExpr); isSel {
+				root = exprStr(sel.X)
+			}
+			okAlt := false
+			if sel, _ := p.enclosingSelectComm(snd); sel != nil {
+				for _, cc := range commClauses(sel) {
+					if cc.Comm == nil {
+						okAlt = true // default
+						continue
+					}
+					if ch := recvChan(cc.Comm); ch != nil && fieldOf(info, ch) == timeoutF {
+						if s2, isSel := ast.Unparen(ch).(*ast.SelectorExpr); isSel && exprStr(s2.X) == root {
+							okAlt = true
+						}
+					}
+				}
+			}
+			r.Check(okAlt, snd, fi.Name+" hands a response over without blocking on a departed caller", "select with <-"+root+".timeout (or default)",
+				"the response is sent on "+exprStr(snd.Chan)+" without the alternative of the caller having left ("+root+".timeout): a caller that gives up while the frame is being read blocks the connection's receive loop forever, and every later response on the connection never reaches its request")
+			return true
+		})
+	})
+	if n == 0 {
+		r.Unresolved("no send on callReq.resp found")
+	}
+}
+
+// c06r14: a call is taken out of Conn.calls only together with its stream id: every function that deletes an entry
+// of Conn.calls releases the stream on every path that follows (the late response of a forgotten call is dropped as
+// "no handler", and a stream kept reserved for it is never given back). closeWithError detaches the whole table.
+func c06r14(p *Program, r *Report) {
+	callsF := p.Field("Conn", "calls")
+	if callsF == nil {
+		r.Unresolved("Conn.calls not found")
+		return
+	}
+	respF := p.Field("callReq", "resp")
+	releases := func(info *types.Info, n ast.Node) bool {
+		for _, c := range callsIn(n) {
+			cn := calleeName(info, c)
+			if cn == "(*Conn).releaseStream" || cn == "streams.(*IDGenerator).Clear" {
+				return true
+			}
+		}
+		// the response handed to the waiting caller: the caller releases the stream when it has consumed it
+		handed := false
+		ast.Inspect(n, func(y ast.Node) bool {
+			if snd, isS := y.(*ast.SendStmt); isS && respF != nil && fieldOf(info, snd.Chan) == respF {
+				handed = true
+			}
+			return true
+		})
+		return handed
+	}
+	// a select case taken because the connection is going down ends the obligation as well
+	connEnds := func(info *types.Info, step Step) bool {
+		if step.Kind != StComm {
+			return false
+		}
+		cc, ok := step.Clause.(*ast.CommClause)
+		if !ok || cc.Comm == nil {
+			return false
+		}
+		if snd, isS := cc.Comm.(*ast.SendStmt); isS && respF != nil && fieldOf(info, snd.Chan) == respF {
+			return true
+		}
+		if ch := recvChan(cc.Comm); ch != nil && strings.HasSuffix(strings.ReplaceAll(exprStr(ch), " ", ""), ".Done()") {
+			return true
+		}
+		return false
+	}
+	n := 0
+	p.forEachFunc(false, func(fi *FuncInfo) {
+		if fi.Pkg != p.Root || fi.Decl.Body == nil {
+			return
+		}
+		info := fi.Pkg.TypesInfo
+		var dels []*ast.CallExpr
+		for _, c := range callsIn(fi.Decl.Body) {
+			if calleeName(info, c) == "builtin.delete" && len(c.Args) == 2 && fieldOf(info, c.Args[0]) == callsF {
+				dels = append(dels, c)
+			}
+		}
+		if len(dels) == 0 {
+			return
+		}
+		// the receive loop takes the call out of the table in order to hand it to its caller (who releases the stream)
+		// or to release it itself when the caller has left: its hand-over is judged by C01.R12 / C06.R4-R5
+		hands := false
+		ast.Inspect(fi.Decl.Body, func(y ast.Node) bool {
+			if snd, isS := y.(*ast.SendStmt); isS && respF != nil && fieldOf(info, snd.Chan) == respF {
+				hands = true
+			}
+			return true
+		})
+		if hands {
+			n++
+			r.OK(fi.Decl, fi.Name+" takes calls out of Conn.calls to hand them over", "the function sends on callReq.resp")
+			return
+		}
+		// the function itself releases after the delete on every path, or each of its callers does after the call
+		g := p.GraphOf(fi)
+		for _, d := range dels {
+			n++
+			dstmt := p.stmtOf(d, fi)
+			sol := Solve(g, Lattice[int]{
+				Join: func(a, b int) int {
+					if a > b {
+						return a
+					}
+					return b
+				},
+				Eq: func(a, b int) bool { return a == b },
+				Step: func(st int, step Step) int {
+					if st == 1 && connEnds(info, step) {
+						return 0
+					}
+					if step.Kind != StNode {
+						return st
+					}
+					if step.Node == dstmt {
+						return 1
+					}
+					if st == 1 && releases(info, step.Node) {
+						return 0
+					}
+					return st
+				},
+			})
+			pendingAtExit := false
+			for _, e := range g.Exits() {
+				if e.Kind == ExitPanic {
+					continue
+				}
+				var st int
+				var ok bool
+				if e.Node != nil {
+					st, ok = sol.After(e.Node)
+				} else {
+					st, ok = sol.AtExit(e)
+				}
+				if ok && st == 1 {
+					pendingAtExit = true
+				}
+			}
+			okCallers := false
+			if pendingAtExit && fi.Obj != nil && !fi.Obj.Exported() && !p.usedAsValue(fi) {
+				// a helper: every caller releases the stream after calling it
+				nsite, okAll := 0, true
+				for _, caller := range p.SortedFuncs() {
+					if caller.Decl.Body == nil || caller.Pkg != p.Root {
+						continue
+					}
+					cinfo := caller.Pkg.TypesInfo
+					for _, cc := range callsIn(caller.Decl.Body) {
+						if fn := calleeOf(cinfo, cc); fn == nil || p.FuncOf(fn) != fi {
+							continue
+						}
+						nsite++
+						cg := p.GraphOf(caller)
+						cstmt := p.stmtOf(cc, caller)
+						csol := Solve(cg, Lattice[int]{
+							Join: func(a, b int) int {
+								if a > b {
+									return a
+								}
+								return b
+							},
+							Eq: func(a, b int) bool { return a == b },
+							Step: func(st int, step Step) int {
+								if step.Kind != StNode {
+									return st
+								}
+								if step.Node == cstmt {
+									return 1
+								}
+								if st == 1 && releases(cinfo, step.Node) {
+									return 0
+								}
+								return st
+							},
+						})
+						for _, e := range cg.Exits() {
+							if e.Kind == ExitPanic {
+								continue
+							}
+							var st int
+							var ok bool
+							if e.Node != nil {
+								st, ok = csol.After(e.Node)
+							} else {
+								st, ok = csol.AtExit(e)
+							}
+							if ok && st == 1 {
+								okAll = false
+							}
+						}
+					}
+				}
+				okCallers = nsite > 0 && okAll
+			}
+			r.Check(!pendingAtExit || okCallers, d, fi.Name+" releases the stream of a call it removes from Conn.calls", "releaseStream / Clear on every path after the delete (here or in every caller)",
+				"an entry is deleted from Conn.calls on a path that does not release its stream id: the response that may still arrive finds no handler and is dropped, and the id stays reserved for the life of the connection (streams run out)")
+		}
+	})
+	if n == 0 {
+		r.Unresolved("no delete from Conn.calls found")
+	}
+}
+
+// c13r11: a batch is idempotent only if every entry is: (*Batch).IsIdempotent answers false as soon as one entry's
+// Idempotent flag is false. Accepted: `return false` where an entry's flag is known false, or an accumulator that is
+// and-ed with each flag; a plain overwrite of the accumulator reports only the last entry.
+func c13r11(p *Program, r *Report) {
+	fi := r.NeedFunc("(*Batch).IsIdempotent")
+	if fi == nil {
+		return
+	}
+	g := p.GraphOf(fi)
+	info := g.Info
+	facts := g.GuardFacts()
+	flagF := p.Field("BatchEntry", "Idempotent")
+	okSome := false
+	// (a) a return false under a known-false flag inside a loop over the entries
+	for _, e := range g.Exits() {
+		rs, ok := e.Node.(*ast.ReturnStmt)
+		if !ok || len(rs.Results) != 1 || !p.inLoop(rs, fi.Decl) {
+			continue
+		}
+		if tv, has := info.Types[rs.Results[0]]; !has || tv.Value == nil || tv.Value.String() != "false" {
+			continue
+		}
+		f, _ := facts.Before(rs)
+		for atom, v := range f.m {
+			if !v && strings.HasSuffix(atom, ".Idempotent") {
+				okSome = true
+			}
+		}
+	}
+	// (b) an accumulator and-ed with every flag
+	bad := ""
+	ast.Inspect(fi.Decl.Body, func(x ast.Node) bool {
+		as, ok := x.(*ast.AssignStmt)
+		if !ok || len(as.Lhs) != 1 || len(as.Rhs) != 1 || !p.inLoop(as, fi.Decl) {
+			return true
+		}
+		mentionsFlag := false
+		ast.Inspect(as.Rhs[0], func(y ast.Node) bool {
+			if sel, isSel := y.(*ast.SelectorExpr); isSel && flagF != nil && fieldOf(info, sel) == flagF {
+				mentionsFlag = true
+			}
+			return true
+		})
+		if !mentionsFlag {
+			return true
+		}
+		acc := exprStr(as.Lhs[0])
+		switch {
+		case as.Tok == token.AND_ASSIGN:
+			okSome = true
+		case as.Tok == token.ASSIGN:
+			if b, isB := ast.Unparen(as.Rhs[0]).(*ast.BinaryExpr); isB && b.Op == token.LAND && (exprStr(ast.Unparen(b.X)) == acc || exprStr(ast.Unparen(b.Y)) == acc) {
+				okSome = true
+			} else {
+				bad = exprStrNode(as)
+			}
+		}
+		return true
+	})
+	r.Check(okSome && bad == "", fi.Decl, "(*Batch).IsIdempotent is false as soon as one entry is not idempotent", "return false under !entry.Idempotent, or an accumulator and-ed with every flag",
+		"IsIdempotent does not answer false for every batch that contains a non-idempotent entry"+ifs(bad != "", " (`"+bad+"` overwrites the result with the flag of the entry at hand: only the last entry counts)", "")+": such a batch passes the idempotence gate and is executed speculatively / retried on another host")
+}
+
+// c15r7: the number of rows of the page at hand says nothing about the result: helpers that drain an iterator
+// (SliceMap, MapScan, RowData and whatever else loops on Scan) do not bound or size their work by NumRows() /
+// numRows - Scan alone decides when the rows are exhausted (it moves on to the next page).
+func c15r7(p *Program, r *Report) {
+	numF := p.Field("Iter", "numRows")
+	n := 0
+	p.forEachFunc(false, func(fi *FuncInfo) {
+		if fi.Pkg != p.Root || fi.Decl.Body == nil || fi.Decl.Recv == nil {
+			return
+		}
+		info := fi.Pkg.TypesInfo
+		if rt := info.TypeOf(fi.Decl.Recv.List[0].Type); rt == nil || typeNameOf(rt) != "Iter" {
+			return
+		}
+		// functions that loop on Scan
+		var loops []*ast.ForStmt
+		ast.Inspect(fi.Decl.Body, func(x ast.Node) bool {
+			if f, ok := x.(*ast.ForStmt); ok {
+				scans := false
+				for _, part := range []ast.Node{f.Cond, f.Body} {
+					if part == nil {
+						continue
+					}
+					inspectNoLit(part, func(y ast.Node) bool {
+						if c, isC := y.(*ast.CallExpr); isC && isCallTo(info, c, "(*Iter).Scan") {
+							scans = true
+						}
+						return true
+					})
+				}
+				if scans {
+					loops = append(loops, f)
+				}
+			}
+			return true
+		})
+		for _, lp := range loops {
+			n++
+			// the loop condition (and everything it is computed from) does not involve the page's row count
+			usesRows := func(e ast.Node) bool {
+				found := false
+				var visit func(n ast.Node, depth int)
+				visit = func(n ast.Node, depth int) {
+					ast.Inspect(n, func(y ast.Node) bool {
+						switch z := y.(type) {
+						case *ast.CallExpr:
+							if isCallTo(info, z, "(*Iter).NumRows") {
+								found = true
+							}
+						case *ast.SelectorExpr:
+							if numF != nil && fieldOf(info, z) == numF {
+								found = true
+							}
+						case *ast.Ident:
+							if depth < 3 {
+								if d := localDef(info, fi, z); d != nil {
+									visit(d, depth+1)
+								}
+							}
+						}
+						return true
+					})
+				}
+				visit(e, 0)
+				return found
+			}
+			bad := lp.Cond != nil && usesRows(lp.Cond)
+			r.Check(!bad, lp, fi.Name+" drains the iterator until Scan says there are no more rows", "the loop is bounded by Scan alone",
+				"the loop that reads the rows is also bounded by the number of rows of the current page (NumRows / numRows): it stops at the first page boundary and returns the rows read so far as the complete result, without an error")
+		}
+	})
+	if n == 0 {
+		r.Unresolved("no Iter method loops on Scan")
 	}
 }
